@@ -90,6 +90,8 @@ def streams(rng, tier):
         for q in (-1, size, size + 1, -2 ** 62, 2 ** 62):
             ops2.append(f"pos2cell {q} {gen.hx(p)} {cres}")
         ops2.append(f"pos2cell 0 {gen.hx(p)} {rng.choice([-1, 16, 17, -2147483648, 2147483647])}")
+        ops2.append(f"pos2cell 0 {gen.hx(p)} {rng.choice(gen.EXTREME_INTS)}")
+        ops2.append(f"cpos {gen.hx(p)} {rng.choice(gen.EXTREME_INTS)}")
         ops2.append(f"pos2cell 0 {gen.hx(p)} {max(-1, ((p >> 52) & 15) - 1)}")
     for _ in range(1500):
         h = gen.malformed(rng)
